@@ -182,9 +182,38 @@ func init() {
 		"os/signal.Notify":           func(fr *frame, a []value) value { return nil },
 		"os.Getenv":                  func(fr *frame, a []value) value { return "" },
 		"os.LookupEnv":               func(fr *frame, a []value) value { return tuple{"", false} },
-		"os.Getwd":                   func(fr *frame, a []value) value { return tuple{"/", iface{}} },
-		"os.Exit":                    func(fr *frame, a []value) value { panic(abort{kind: "exit", msg: fmt.Sprint(asInt64(a[0]))}) },
-		"time.Sleep":                 func(fr *frame, a []value) value { return nil },
+		"os.Stat": func(fr *frame, a []value) value {
+			return tuple{iface{}, fr.i.newError(fr, "stat "+goStr(a[0])+": no such file or directory (engine: empty file system)")}
+		},
+		"os.Lstat": func(fr *frame, a []value) value {
+			return tuple{iface{}, fr.i.newError(fr, "lstat "+goStr(a[0])+": no such file or directory (engine: empty file system)")}
+		},
+		"os.ReadFile": func(fr *frame, a []value) value {
+			return tuple{[]value(nil), fr.i.newError(fr, "open "+goStr(a[0])+": no such file or directory (engine: empty file system)")}
+		},
+		"os.ReadDir": func(fr *frame, a []value) value {
+			return tuple{[]value(nil), fr.i.newError(fr, "open "+goStr(a[0])+": no such file or directory (engine: empty file system)")}
+		},
+		"os.Open": func(fr *frame, a []value) value {
+			return tuple{(*value)(nil), fr.i.newError(fr, "open "+goStr(a[0])+": no such file or directory (engine: empty file system)")}
+		},
+		"os.Executable": func(fr *frame, a []value) value { return tuple{"/engine/origami", iface{}} },
+		"os.IsNotExist": func(fr *frame, a []value) value { return a[0].(iface).t != nil },
+		"path/filepath.Abs": func(fr *frame, a []value) value {
+			s := goStr(a[0])
+			if len(s) == 0 || s[0] != '/' {
+				s = "/" + s
+			}
+			return tuple{s, iface{}}
+		},
+		"path/filepath.EvalSymlinks": func(fr *frame, a []value) value { return tuple{a[0], iface{}} },
+		"verif/symx.SoftFuel": func(fr *frame, a []value) value {
+			fr.i.softFuelAt = fr.i.fuel - asInt64(a[0])
+			return nil
+		},
+		"os.Getwd":   func(fr *frame, a []value) value { return tuple{"/", iface{}} },
+		"os.Exit":    func(fr *frame, a []value) value { panic(abort{kind: "exit", msg: fmt.Sprint(asInt64(a[0]))}) },
+		"time.Sleep": func(fr *frame, a []value) value { return nil },
 		"(*strings.Builder).String": func(fr *frame, a []value) value {
 			b := (*a[0].(*value)).(structure)
 			buf, _ := b[1].([]value)
